@@ -7,3 +7,5 @@ import LettreVerif.Props.C14
 #print axioms LV.C14.auth_wire
 #print axioms LV.C14.ten_challenges_fail
 #print axioms LV.C14.base64_lossless
+#print axioms LV.C14.plain_read_by_server
+#print axioms LV.C14.xoauth2_read_by_server
